@@ -10,7 +10,7 @@ package tlcp
 //
 //verif:assume C14 framing precondition: unmarshal is only ever called by readHandshake with data[0] = message type and data[1:4] = len(data)-4
 
-//verif:harness props=C14,C09 paths=30000 tpaths=2000000 split reach=accepted,rejected
+//verif:harness props=C14,C09,C03 paths=30000 tpaths=2000000 split reach=accepted,rejected
 func VerifHarness_C14_rev_certificate() {
 	n := verifSplitInt("len", 0, verifBound(16, 24))
 	data := frame(typeCertificate, n)
@@ -26,7 +26,7 @@ func VerifHarness_C14_rev_certificate() {
 	sameBytes("C14.certificate.reencode", out, data)
 }
 
-//verif:harness props=C14,C09 paths=20000 split reach=accepted,rejected
+//verif:harness props=C14,C09,C03 paths=20000 split reach=accepted,rejected
 func VerifHarness_C14_rev_certreq() {
 	n := verifSplitInt("len", 0, verifBound(16, 22))
 	data := frame(typeCertificateRequest, n)
@@ -41,7 +41,7 @@ func VerifHarness_C14_rev_certreq() {
 	sameBytes("C14.certreq.reencode", out, data)
 }
 
-//verif:harness props=C14,C09 paths=2000 reach=accepted,rejected
+//verif:harness props=C14,C09,C03 paths=2000 reach=accepted,rejected
 func VerifHarness_C14_rev_skx() {
 	n := verifSplitInt("len", 0, verifBound(10, 40))
 	data := frame(typeServerKeyExchange, n)
@@ -56,7 +56,7 @@ func VerifHarness_C14_rev_skx() {
 	sameBytes("C14.skx.reencode", out, data)
 }
 
-//verif:harness props=C14,C09 paths=2000 reach=accepted,rejected
+//verif:harness props=C14,C09,C03 paths=2000 reach=accepted,rejected
 func VerifHarness_C14_rev_ckx() {
 	n := verifSplitInt("len", 0, verifBound(10, 40))
 	data := frame(typeClientKeyExchange, n)
@@ -71,7 +71,7 @@ func VerifHarness_C14_rev_ckx() {
 	sameBytes("C14.ckx.reencode", out, data)
 }
 
-//verif:harness props=C14,C09 paths=2000 reach=accepted,rejected
+//verif:harness props=C14,C09,C03 paths=2000 reach=accepted,rejected
 func VerifHarness_C14_rev_shd() {
 	n := verifSplitInt("len", 0, 8)
 	data := frame(typeServerHelloDone, n)
@@ -85,7 +85,7 @@ func VerifHarness_C14_rev_shd() {
 	sameBytes("C14.shd.reencode", out, data)
 }
 
-//verif:harness props=C14,C09 paths=5000 reach=accepted,rejected
+//verif:harness props=C14,C09,C03 paths=5000 reach=accepted,rejected
 func VerifHarness_C14_rev_certverify() {
 	n := verifSplitInt("len", 0, verifBound(12, 40))
 	data := frame(typeCertificateVerify, n)
@@ -100,7 +100,7 @@ func VerifHarness_C14_rev_certverify() {
 	sameBytes("C14.certverify.reencode", out, data)
 }
 
-//verif:harness props=C14,C09 paths=5000 reach=accepted,rejected
+//verif:harness props=C14,C09,C03 paths=5000 reach=accepted,rejected
 func VerifHarness_C14_rev_finished() {
 	n := verifSplitInt("len", 0, verifBound(18, 40))
 	data := frame(typeFinished, n)
@@ -117,7 +117,7 @@ func VerifHarness_C14_rev_finished() {
 
 // hellos without an extension block: re-encoding is an oracle (DESIGN §6 C14)
 //
-//verif:harness props=C14,C09 paths=60000 tpaths=600000 split reach=accepted,rejected
+//verif:harness props=C14,C09,C03 paths=60000 tpaths=600000 split reach=accepted,rejected
 func VerifHarness_C14_rev_serverhello_noext() {
 	n := verifSplitInt("len", 0, verifBound(46, 50))
 	data := frame(typeServerHello, n)
@@ -138,7 +138,7 @@ func VerifHarness_C14_rev_serverhello_noext() {
 	sameBytes("C14.serverhello.reencode", out, data)
 }
 
-//verif:harness props=C14,C09 paths=60000 tpaths=600000 split reach=accepted,rejected
+//verif:harness props=C14,C09,C03 paths=60000 tpaths=600000 split reach=accepted,rejected
 func VerifHarness_C14_rev_clienthello_noext() {
 	n := verifSplitInt("len", 0, verifBound(48, 52))
 	data := frame(typeClientHello, n)
@@ -376,7 +376,7 @@ func VerifHarness_C14_fwd_clienthello() {
 
 // ---- totality on arbitrary (unframed) bytes: no panic
 
-//verif:harness props=C09,C14 paths=200000 tpaths=2000000 split reach=accepted,rejected
+//verif:harness props=C09,C14,C03 paths=200000 tpaths=2000000 split reach=accepted,rejected
 func VerifHarness_C09_unmarshal_any() {
 	typ := verifSplitInt("type", 0, 8)
 	maxn := verifBound(16, 24)
@@ -417,7 +417,7 @@ func VerifHarness_C09_unmarshal_any() {
 // emits it, with ONE arbitrary byte appended inside that extension (all enclosing length fields adjusted): no
 // extension may carry bytes its decoder does not consume.
 //
-//verif:harness props=C14 paths=20000 reach=checked
+//verif:harness props=C14,C03 paths=20000 reach=checked
 func VerifHarness_C14_rev_clienthello_extension_strict() {
 	m := &clientHelloMsg{vers: verifNondetU16("vers"), random: verifNondetBytes("random", 32), compressionMethods: []byte{0}, cipherSuites: []uint16{verifNondetU16("suite")}}
 	which := verifSplitInt("ext", 1, 6)
